@@ -16,10 +16,11 @@ package dispatcher
 //@   requires[inv]  d != nil && d.logger != nil && d.ActionHandler != nil
 //@   requires[base] transferAttr != nil && taOK(transferAttr)
 //@   requires[base] forall j int :: 0 <= j && j < len(actions) ==> actionOK(actions[j])
-//@   modifies bank, events, actcalls, act_ctrl, act_pkt, disp_act_n, disp_act_log, disp_act_ta, disp_exit, disp_act_err, transferAttr.destinationCoin
-//   C12: the actions are reported as done only if the handler accepted each of them
-//@   loop 0 invariant[C12] idx > 0 ==> disp_act_err == nil
-//@   ensures[C12] err == nil && len(actions) > 0 ==> disp_act_err == nil
+//@   modifies bank, events, actcalls, act_ctrl, act_pkt, disp_act_n, disp_act_log, disp_act_ta, disp_exit, disp_act_err, disp_act_fail, transferAttr.destinationCoin
+//   C12, C09: the actions are reported as done only if the handler accepted each of them (a refusal - a paused
+//   action, for one - is never skipped over)
+//@   loop 0 invariant[C12,C09] disp_act_fail == old(disp_act_fail) && (idx > 0 ==> disp_act_err == nil)
+//@   ensures[C12,C09] err == nil ==> disp_act_fail == old(disp_act_fail) && (len(actions) > 0 ==> disp_act_err == nil)
 //@   loop 0 invariant[C06] disp_act_n == old(disp_act_n) + idx
 //@   loop 0 invariant[C06] forall j int :: 0 <= j && j < idx ==> disp_act_log[old(disp_act_n) + j] == actions[j]
 //@   loop 0 invariant[C06] idx > 0 ==> disp_act_ta == transferAttr && transferAttr.destinationCoin == disp_exit
@@ -55,7 +56,7 @@ package dispatcher
 //@   requires[base] transferAttr != nil && forwardingOK(forwarding)
 //@   modifies bank, events, fwdcalls, fwd_ctrl, fwd_pkt, disp_fwd_n, disp_fwd_ta, disp_fwd_fw, disp_fwd_coin, disp_fwd_err, out_n, out_kind, out_cctp, out_cctpc, out_hyp, out_send
 //   C12: the forwarding is reported as done only if the handler ran, once, and accepted it
-//@   ensures[C12] err == nil ==> disp_fwd_n == old(disp_fwd_n) + 1 && disp_fwd_err == nil
+//@   ensures[C12,C09] err == nil ==> disp_fwd_n == old(disp_fwd_n) + 1 && disp_fwd_err == nil
 //@   ensures[C06] err == nil ==> disp_fwd_n == old(disp_fwd_n) + 1 && disp_fwd_ta == transferAttr && disp_fwd_fw == forwarding && disp_fwd_coin == old(transferAttr.destinationCoin)
 //@   ensures[C06] disp_fwd_n <= old(disp_fwd_n) + 1
 //@   requires[C01] bankNonneg(bank)
@@ -79,7 +80,10 @@ package dispatcher
 //   ... and "refused" is what the handlers say, not only what the dispatcher returns: the statistics change only when
 //   the forwarding handler ran, exactly once, and returned no error, after a last action (if any) that returned no error
 //@   ensures[C12] !(amt_has == old(amt_has) && amt_val == old(amt_val) && cnt_has == old(cnt_has) && cnt_val == old(cnt_val)) ==>
-//@                disp_fwd_n == old(disp_fwd_n) + 1 && disp_fwd_err == nil && (len(payload.PreActions) > 0 ==> disp_act_err == nil)
+//@                disp_fwd_n == old(disp_fwd_n) + 1 && disp_fwd_err == nil && disp_act_fail == old(disp_act_fail)
+//   C09 (dispatcher side): a payload is dispatched successfully only if no action handler refused - the executor refuses
+//   a paused action (its own C09 clauses), and that refusal refuses the transfer
+//@   ensures[C09] err == nil ==> disp_act_fail == old(disp_act_fail) && disp_fwd_err == nil
 //@   ensures[C06] !payloadOK(payload) ==> disp_act_n == old(disp_act_n) && disp_fwd_n == old(disp_fwd_n)
 //@   ensures[C06] err == nil ==> disp_act_n == old(disp_act_n) + len(payload.PreActions) && disp_fwd_n == old(disp_fwd_n) + 1
 //@   ensures[C06] err == nil ==> forall j int :: 0 <= j && j < len(payload.PreActions) ==> disp_act_log[old(disp_act_n) + j] == payload.PreActions[j]
